@@ -28,7 +28,7 @@ use std::sync::atomic::{AtomicBool, AtomicU64, Ordering};
 // that single case alone; only if the single call does not return is it a verdict.
 
 const MAX_WORKERS: usize = 64;
-const HANG_SECS: u64 = 30;
+const HANG_SECS: u64 = 90;
 static BEAT: [AtomicU64; MAX_WORKERS] = [const { AtomicU64::new(0) }; MAX_WORKERS];
 static INCALL: [AtomicBool; MAX_WORKERS] = [const { AtomicBool::new(false) }; MAX_WORKERS];
 static FLIGHT_KIND: [AtomicU64; MAX_WORKERS] = [const { AtomicU64::new(0) }; MAX_WORKERS]; // 0 none, 1 key, n>=5 hand of n slots
